@@ -51,7 +51,7 @@ func dedupRaces(text string) map[string]string {
 
 func checkC18(c *Ctx) error {
 	c.Ev = evidence.New("C18", c.Tier, c.Seed, "exploration",
-		"one harness binary links 7 generated packages (two @error-recovery parsers, one of them with _onBounds; a structured grammar with _onBounds; a multi-mode lexer; a non-greedy lexer; a many-token specification used for both lexing and parsing; and a second package generated from the same grammar text as the first) and is built with -race. Every job (a parse over scripted tokens or a lex run over bytes, fresh instance each) is first run alone for a baseline digest of its complete event log; then all jobs run for several rounds on 8, 32 and 128 goroutines at once, with runtime.Gosched() injected in ReadToken, in every action and in PushRune from per-goroutine PRNGs. Oracles: zero 'WARNING: DATA RACE' blocks in the race detector's log (GORACE halt_on_error=0, counted and deduplicated by top frames) and every concurrent run's digest equal to its baseline. Non-trivial: jobs that ran while at least one other job was in flight; distinct by batch+job index.")
+		"one harness binary links 7 generated packages (two @error-recovery parsers, one of them with _onBounds; a structured grammar with _onBounds; a multi-mode lexer; a non-greedy lexer; a many-token specification used for both lexing and parsing; and a second package generated from the same grammar text as the first) and is built with -race. Every job is a parse over scripted tokens (half of them with syntax errors and ERROR tokens) or a lex run over bytes, on a fresh instance each. For each of 8, 32 and 128 goroutines a fresh process runs all jobs for several rounds at once, starting cold (the first thing that process does with the generated packages is the first concurrent round, so lazily initialised shared state would be first touched concurrently); runtime.Gosched() is injected in ReadToken, in every action and in PushRune from per-goroutine PRNGs, and which jobs run side by side is re-shuffled every round. In every other round the harness shares nothing between the goroutines (no counters, locks or channels), so that it adds no happens-before edges that could hide a race from the detector; the remaining rounds count goroutine switches between monitored events and jobs in flight for this evidence. Only after the concurrent phase is every job run alone for the baseline digest of its complete event log. Oracles: zero 'WARNING: DATA RACE' blocks in the race detector's log (GORACE halt_on_error=0, counted and deduplicated by top frames) and every concurrent run's digest equal to its baseline. Non-trivial: jobs that ran while at least one other job was in flight; distinct by batch+job index.")
 	c.Ev.Assumptions = []string{
 		"the race detector reports races on executions it sees; injected yields and three goroutine counts vary the interleavings",
 		"the in-child CPU watchdog is switched off for this check (it is harness state, not generated code)",
@@ -152,16 +152,22 @@ func c18Batch(c *Ctx, r *rng.R, bi int) error {
 		subs = append(subs, hc.ConcSub{Pkg: both.Pkg.Name, Toks: toks})
 	}
 	logBase := filepath.Join(b.Dir, "race.log")
-	var jobs []hc.Job
+	// one process per goroutine count: each starts cold, so that state the
+	// generated code initialises lazily is first touched concurrently
+	oc := &run.RunOutcome{Results: map[int]*run.RawResult{}}
 	for gi, g := range []int{8, 32, 128} {
-		jobs = append(jobs, run.MkJob(gi+1, "", "conc", hc.ConcJob{Subs: subs, Goroutines: g, Rounds: c.N(15, 30), Seed: uint64(c.Seed)*1000 + uint64(bi*10+gi)}))
-	}
-	oc, err := b.Run(jobs, 20*time.Minute, "GORACE=halt_on_error=0 log_path="+logBase, "HC_NO_WATCHDOG=1")
-	if err != nil {
-		return err
-	}
-	if oc.TimedOut {
-		c.Inconclusive("watchdog")
+		job := run.MkJob(gi+1, "", "conc", hc.ConcJob{Subs: subs, Goroutines: g, Rounds: c.N(16, 30), Seed: uint64(c.Seed)*1000 + uint64(bi*10+gi)})
+		o1, err := b.Run([]hc.Job{job}, 20*time.Minute, fmt.Sprintf("GORACE=halt_on_error=0 log_path=%s.g%d", logBase, g), "HC_NO_WATCHDOG=1")
+		if err != nil {
+			return err
+		}
+		if o1.TimedOut {
+			c.Inconclusive("watchdog")
+		}
+		for k, v := range o1.Results {
+			oc.Results[k] = v
+		}
+		oc.Stderr += o1.Stderr
 	}
 	// race reports
 	var raceText strings.Builder
